@@ -140,6 +140,17 @@ func corpusFiles() []*descriptorpb.FileDescriptorProto {
 	kf.EnumType = append(kf.EnumType, &descriptorpb.EnumDescriptorProto{Name: proto.String("Kind"), Value: []*descriptorpb.EnumValueDescriptorProto{
 		{Name: proto.String("KIND_NONE"), Number: proto.Int32(0)}, {Name: proto.String("KIND_SOME"), Number: proto.Int32(4)}}})
 	files = append(files, kf)
+	// custom options: a top-level extension of FieldOptions (as cosmos_proto/cosmos.proto declares them) and one declared
+	// inside a message
+	xf := newFile("corpus/ext/ext.proto", "corpus.ext", freshModule+"/corpus/ext", "google/protobuf/descriptor.proto")
+	xf.Extension = append(xf.Extension, &descriptorpb.FieldDescriptorProto{Name: proto.String("scalar_hint"), JsonName: proto.String("scalarHint"), Number: proto.Int32(93001),
+		Label: descriptorpb.FieldDescriptorProto_LABEL_OPTIONAL.Enum(), Type: descriptorpb.FieldDescriptorProto_TYPE_STRING.Enum(), Extendee: proto.String(".google.protobuf.FieldOptions")})
+	xh := newMsg("Holder", "corpus.ext.Holder")
+	xh.field("name", 1, descriptorpb.FieldDescriptorProto_TYPE_STRING, "")
+	xh.m.Extension = append(xh.m.Extension, &descriptorpb.FieldDescriptorProto{Name: proto.String("tag"), JsonName: proto.String("tag"), Number: proto.Int32(93002),
+		Label: descriptorpb.FieldDescriptorProto_LABEL_OPTIONAL.Enum(), Type: descriptorpb.FieldDescriptorProto_TYPE_STRING.Enum(), Extendee: proto.String(".google.protobuf.MessageOptions")})
+	xf.MessageType = append(xf.MessageType, xh.m)
+	files = append(files, xf)
 	// a proto path with upper-case letters (file-scoped identifiers are derived from it)
 	mc := newFile("corpus/Mixed/CaseTypes.proto", "corpus.mixed", freshModule+"/corpus/mixed")
 	mcm := newMsg("TxBody", "corpus.mixed.TxBody")
